@@ -20,6 +20,7 @@ EXPLANATION = (
     " (R8) cyclic model: the repetition cap and the product bound are checked against the premises that justify a flow-valued cap (exact flow row, weights >= 1) - all three fail for kMinPathErrorCycles and are reported as known findings (modelling limitation); a non-integral superset is rejected for integer weights; filters decide emptiness on the internal route (C01.R5); (R2, extended) every product helper is told an upper bound that dominates the declared bound of its continuous factor, and the integer helper sizes the bit expansion from a bound that dominates the declared bound of the integer factor (symbolic dominance over the bound attributes set in the constructor, with slack_ub >= 1). "
     "their shared defaults.  NOT decided: feasibility for all "
     "k >= width, optimality of the slack sum."
+    ' (R8, round 3) is_valid_solution() scales the error like the model; with empty paths allowed and path length ranges, length 0 lies in some range; coefficient conversion; validity check on Python numbers.'
 )
 DECIDED = ["error/slack rows, linking and objective present and complete", "length-factor plumbing", "k=None -> width of the non-ignored part"]
 NOT_DECIDED = ["feasible for every k >= width", "total slack is minimum"]
